@@ -26,6 +26,9 @@ TPL = {
     "skip-mid": '$SYM[*][ push("a", line_number()) skip(@k == line_number()) push("b", line_number()) ]',
     "skip-last": '$SYM[*][ push("a", line_number()) push("b", line_number()) skip(@k == line_number()) ]',
     "skip-first": '$SYM[*][ skip(@k == line_number()) push("a", line_number()) push("b", line_number()) ]',
+    # an earlier component of the firing line votes no (lines <= @n do not match)
+    "skip-lastfailing": '$SYM[*][ push("a", line_number()) gt(line_number(), @n) push("b", line_number()) skip(@k == line_number()) ]',
+    "stop-lastfailing": '$SYM[*][ push("a", line_number()) gt(line_number(), @n) push("b", line_number()) stop(@k == line_number()) ]',
     "adv-mid": '$SYM[*][ push("a", line_number()) @k == line_number() -> advance(@n) push("b", line_number()) ]',
     "adv-last": '$SYM[*][ push("a", line_number()) push("b", line_number()) @k == line_number() -> advance(@n) ]',
 }
@@ -46,6 +49,17 @@ def ctl_oracle(tpl, k, n, b1, b2, b3, b4, b5, b6):
             adv -= 1
             continue
         fire = i == k
+        if pos == "lastfailing":
+            a.append(i)
+            b.append(i)
+            if kind == "skip" and fire:
+                continue
+            if i > n:
+                ret.append(i)
+                match += 1
+            if kind == "stop" and fire:
+                break
+            continue
         if kind == "stop":
             if pos == "first":
                 if fire:
@@ -127,11 +141,13 @@ ENC = [
     encodes=ENC,
     tiers={
         "quick": {"timeout": 900, "K": {"KLO": -1, "KHI": 7, "NHI": 7},
-                  "shards": product(tpl=[t for t in TPL if not t.startswith("adv")], n=[0], b2=[False], b4=[False], b5=[False])
-                  + product(tpl=["adv-mid", "adv-last"], b2=[False], b4=[False], b5=[False], b6=[False])},
+                  "shards": product(tpl=[t for t in TPL if not t.startswith("adv") and not t.endswith("failing")], n=[0], b2=[False], b4=[False], b5=[False])
+                  + product(tpl=["adv-mid", "adv-last"], b2=[False], b4=[False], b5=[False], b6=[False])
+                  + product(tpl=["skip-lastfailing", "stop-lastfailing"], b1=[False], b2=[False], b4=[False], b5=[False], b6=[False])},
         "thorough": {"timeout": 3000, "K": {"KLO": -2, "KHI": 8, "NHI": 8},
-                     "shards": product(tpl=[t for t in TPL if not t.startswith("adv")], n=[0], b1=[False, True])
-                     + product(tpl=["adv-mid", "adv-last"], b1=[False, True], b2=[False, True])},
+                     "shards": product(tpl=[t for t in TPL if not t.startswith("adv") and not t.endswith("failing")], n=[0], b1=[False, True])
+                     + product(tpl=["adv-mid", "adv-last"], b1=[False, True], b2=[False, True])
+                     + product(tpl=["skip-lastfailing", "stop-lastfailing"], b2=[False, True], b4=[False], b5=[False])},
     },
 )
 def ctl_run(tpl: str, k: int, n: int, b1: bool, b2: bool, b3: bool, b4: bool, b5: bool, b6: bool) -> Tuple[List[int], List[int], List[int], int, int]:
